@@ -52,6 +52,20 @@ NEEDS = {
     "C16-3": "KSFunction as soft minimum (rho < 0) on wide-range data with |rho|*(max-min) > ~709: log-sum-exp shift by the maximum overflows",
     "C18-3": "Signal constructed with an initial sensitivity (keep_alloc True) and reset(keep_alloc=False): the explicit False is ignored",
     "C20-3": "2D domain, node-sized block-vector with 2 components per node and at least 2 blocks: only block 0 is padded to three components",
+    "C02-4": "a Network built with print_timing enabled (True or a numeric threshold) holding modules that depend on each other: the timed branch iterates self.mods (forward order) also for sensitivity()",
+    "C03-4": "SystemOfEquations: on one response(), a backward pass seeding b, reset, then a pass seeding only x (prescribed part of the adjoint vector keeps the old seed)",
+    "C04-4": "LDAWrapper caches A^H (never invalidated): LinSolve with a non-symmetric matrix, response/sensitivity, second response with another matrix, then two or more adjoint solves",
+    "C05-4": "one CG object: solve(trans='H'), update(A2), solve(trans='H') again (A^H cached, never invalidated)",
+    "C06-4": "solve(B, x0=X0) with a block right-hand side on an empty database where at least one column needs no inner solve (zero column) and the inner solver uses x0 (CG): the unmasked initial guess has the wrong number of columns",
+    "C07-4": "the same Inverse instance evaluated again with a matrix that is element-wise within 1e-8 + 1e-5*|A_prev| of the previous one (np.allclose change detector): tiny-valued matrices or relative updates below 1e-5",
+    "C10-4": "step-size stopping test without scaling by the variable ranges: per-signal/per-variable bounds of very different width with the wide variable nearly stationary -> stops after 1-3 iterations far from the optimum",
+    "C11-4": "Hermitian problems normalised with vdot (q^H B q = 1 instead of the bilinear q^T B q = 1): complex Hermitian A and/or B",
+    "C15-4": ".imag of a carrier holding a dyad with real u and complex v (helper looks at u only)",
+    "C16-4": "lower_amt / upper_amt entries removed by threshold value instead of by count: tied values at the cut position",
+    "C17-4": "xmin and/or xmax passed as a float64 array with one entry per variable (np.asarray returns the caller's array; out= writes tighten the bounds every iteration)",
+    "C18-4": "the first contribution to a signal is a 0-d numpy array (aliased instead of copied), then mutated by the caller / added to a second signal",
+    "C19-4": "use_df given and a complex-valued selected output: an imaginary part is added to the caller's seed",
+    "C20-4": "the ScalarToFile log file already exists when a new instance makes its first call (appended instead of truncated)",
     "C20-1": "scale != 1 and at least two writes with the same DomainDefinition (element_size view scaled in place): Spacing wrong from the second file on",
 }
 
